@@ -15,7 +15,7 @@ COMMON_NOTE = ("Trusted base: TLC/SANY; the layer-1 model speaks for the code on
 T = "TLA+ model checking (TLC) + TLC validation of traces recorded from the real code"
 C = {
  "C01": ("TLC decides all three predecessor queries against KeyExpRef for every history over 3-5 keys x 3-5 instants (fixpoint, unbounded length, time of each call free); every state of the model's cover is re-created on the real KeyExpTree, every in-contract call is made there and the logged result and snapshot are validated by TLC; seeded random histories on 8-24 keys on top.", "6/C01"),
- "C02": ("WellFormed (BST order, link consistency, no red-red, equal black heights, sentinel unlinked, height <= 2log2(n+1)+1) is an invariant of MCOrd (6-9 keys, capacity hints) and MCKey; TLC evaluates the same predicate on the snapshot of every logged state of MapTree, SetTree and KeyExpTree (cover fan-out, random churn up to 64 keys).", "6/C02"),
+ "C02": ("WellFormed (BST order, link consistency, no red-red, equal black heights, sentinel unlinked, height <= 2log2(n+1)+1) is an invariant of MCOrd (6-9 keys, capacity hints) and MCKey; TLC evaluates the same predicate on the snapshot of every logged state of MapTree, SetTree and KeyExpTree (cover fan-out, random churn on 64 keys, monotone fills, sampled snapshots of trees with hundreds of entries); the EXACT comparison shows zero drift between the real arena and the model.", "6/C02"),
  "C03": ("MCSeg explores every history of inserts / iterator new-next-drop / clear for heap heights 2-3; TLC validates real-tree traces over nine domains against SegRef (no duplicate, only allowed values, complete when consumed) and the complete 528x528 range matrix.", "6/C03"),
  "C04": ("MCOrd refines OrdRef on every transition (insert / delete present+absent / write through handle / clear); real MapTree with i32 and String values: cover fan-out from every reachable tree over 5-6 keys, random histories, contents compared by TLC through the snapshot after every call.", "6/C04"),
  "C05": ("as C04 on SetTree with key+payload values (i32 and String payload) so that a payload mix-up by the successor-value move is visible.", "6/C05"),
@@ -31,7 +31,7 @@ C = {
  "C15": ("complete static TLC check for H=5 (528 ranges, 278 784 pairs): transcribed loops = declarative masks, exact tiling, <= 8 places, meet iff overlap; the real tree over [0,31] is probed for all 528 insert ranges x 528 query ranges.", "6/C15"),
  "C16": ("MCSeg asserts that after next() returns None for a whole-domain query no stored copy has e < t; on the real tree the stored copies (hook) after every completely consumed whole-domain query must be exactly the copies of the unexpired values.", "6/C16"),
  "C17": ("in MCOrd every insert transition from every reachable state is asserted to leave the entity of every stored slot unchanged; on the real trees handles for all stored entries are held over all insertion orders of the absent keys and re-read after each insertion, and TLC checks slot stability on the snapshots.", "6/C17"),
- "C18": ("fault enumeration validated by TLC: every callback index of every call from every covered state panics once; the post-panic snapshot must be WellFormed, PoolOK and show the contents before or after the call, and the collection is used again; MCKey explores PanicAt successors of every call.", "6/C18"),
+ "C18": ("fault enumeration validated by TLC: every callback index of every call from every covered state panics once; the post-panic snapshot must be WellFormed, PoolOK and show the contents before or after the call, and the collection is used again (with a panic-free control run of the same follow-up); MCKey, MCSeg and MCKeyList explore the panic successors of every callback point.", "6/C18"),
  "C19": ("ExportCap <= 8n+64 is an invariant of MCKey (the as-coded estimate is refuted at n=4); the real export's capacity is logged for every covered state, for 0..64 entries in three insertion orders and for powers of ten up to 10^5 (quick) / 2*10^6 (thorough).", "6/C19"),
  "C20": ("the callback log of the layer-1 model shows only live stored keys reaching cmp/closure on every transition of MCKey; instrumented key and comparator types record both arguments of every comparison on the real tree and list and TLC checks each against the call's time.", "6/C20"),
 }
